@@ -657,6 +657,19 @@ func definiteError(v ssa.Value, d int) bool {
 		if IsFunc(x, "fmt", "Errorf") || IsFunc(x, "errors", "New") {
 			return true
 		}
+		// an error constructor of the program: a function with a single error result every return of which is one
+		if h := x.Call.StaticCallee(); h != nil && len(h.Blocks) > 0 && h.Signature.Results().Len() == 1 && IsErrorType(h.Signature.Results().At(0).Type()) {
+			n, all := 0, true
+			Instrs(h, func(in ssa.Instruction) {
+				if ret, ok := in.(*ssa.Return); ok && len(ret.Results) == 1 {
+					n++
+					if !definiteError(ret.Results[0], d+1) {
+						all = false
+					}
+				}
+			})
+			return all && n > 0
+		}
 	case *ssa.UnOp:
 		if g, ok := x.X.(*ssa.Global); ok && IsErrorType(Deref(g.Type())) {
 			return true
